@@ -7,10 +7,12 @@ D=/verif/seeded/$ID
 export GOFLAGS=-mod=mod GOPROXY=off
 cd /repo || exit 2
 if ! git diff --quiet; then echo "refusing: /repo has uncommitted changes"; exit 2; fi
+if grep -q '"obsolete"' "$D/meta.json"; then echo "$ID: marked obsolete in meta.json (patch no longer applicable), skipped"; exit 0; fi
 git apply --check "$D/patch.diff" || { echo "$ID: patch does not apply to current /repo"; exit 2; }
-# demo passes without the change
-cp "$D/demo_test.go" /repo/zz_demo_test.go
-TAGS=""; grep -q "go:build verif" "$D/demo_test.go" && TAGS="-tags verif"
+# demo passes without the change (demo2_test.go, where present, replaces a demonstration that a later fix made stale)
+DEMO="$D/demo_test.go"; [ -f "$D/demo2_test.go" ] && DEMO="$D/demo2_test.go"
+cp "$DEMO" /repo/zz_demo_test.go
+TAGS=""; grep -q "go:build verif" "$DEMO" && TAGS="-tags verif"
 RACE=""; case "$ID" in C18*) RACE="-race";; esac
 go test $RACE $TAGS -count=1 -timeout 120s -run 'Demo|demo|Seeded|C[0-9][0-9]' . > /tmp/es.$$.clean 2>&1; clean=$?
 git apply "$D/patch.diff"
